@@ -107,6 +107,8 @@ echs_instant_fixup(echs_instant_t e)
  * we only care about additive cockups though because instants are
  * chronologically ascending */
 	unsigned int md;
+	/* wider than the 6-bit field so that a carry out of ms fits */
+	unsigned int S = e.S;
 
 	if (UNLIKELY(echs_instant_all_day_p(e))) {
 		/* just fix up the day, dom and year portion */
@@ -121,18 +123,18 @@ echs_instant_fixup(echs_instant_t e)
 		unsigned int ms = e.ms % MSECS_PER_SEC;
 
 		e.ms = ms;
-		e.S += dS;
+		S += dS;
 	}
 
 fixup_S:
-	if (UNLIKELY(e.S >= SECS_PER_MIN)) {
+	if (UNLIKELY(S >= SECS_PER_MIN)) {
 		/* leap seconds? */
-		unsigned int dM = e.S / SECS_PER_MIN;
-		unsigned int S = e.S % SECS_PER_MIN;
+		unsigned int dM = S / SECS_PER_MIN;
 
-		e.S = S;
+		S %= SECS_PER_MIN;
 		e.M += dM;
 	}
+	e.S = S;
 	if (UNLIKELY(e.M >= MINS_PER_HOUR)) {
 		unsigned int dH = e.M / MINS_PER_HOUR;
 		unsigned int M = e.M % MINS_PER_HOUR;
